@@ -221,7 +221,7 @@ func impl(in hv.Val) hv.Val {
 var asciiNames = []string{"accept", "Accept-Encoding", "x-a", "X-Custom-Header", "user-agent", "COOKIE", ":path", ":method",
 	":host", ":scheme", ":version", "content-length", "a", "", "x_y", "b c", "etag", "Via", "x-1", "cache-control"}
 var uniSame = []string{"é", "ß", "å", "中", "xé", "ⱥ", "ȧ"}       // ToLower keeps the byte length
-var uniShrink = []string{"\u0130x", "\u0130", "\u212a", "a\u212a", "\u212b", "\u1e9e", "x\u0130y", "\u00c9", "\u00c5"} // É: same length, changes bytes
+var uniShrink = []string{"\u0130x", "\u0130", "\u212a", "a\u212a", "\u212b", "\u1e9e", "x\u0130y", "\u00c9", "\u00c5", "\u023a", "x\xff", "\xc3", "a\u023ab"} // É: same length, changes bytes
 var uniGrow = []string{"Ⱥ", "x\xff", "\xc3"}                         // grow: the reader then sees a length >= 2^31
 var invalidNames = []string{"Connection", "host", "keep-alive", "Transfer-Encoding", "proxy-connection"}
 
